@@ -311,7 +311,7 @@ func TestC01_Dpkg(t *testing.T) {
 	if len(cases) == 0 {
 		t.Skip("no reference verdicts available")
 	}
-	specC01Dpkg.Enumerate(t, false, func(yield func(DpkgCase) bool) {
+	specC01Dpkg.Enumerate(t, false, func(_ *Recorder, yield func(DpkgCase) bool) {
 		for _, c := range cases {
 			if !yield(c) {
 				return
